@@ -1690,7 +1690,8 @@ class SymEval:
             # a method the reference tree does not have, defined by exactly one class: a helper extracted onto the receiver's class (the
             # receiver's type need not be known to find it)
             cands = [f for f in self.model.functions.values() if f.name == method and f.cls and f.parent is None and self.is_new_helper(f)]
-            if len(cands) == 1 and not any(f.name == method and f.cls and f is not cands[0] for f in self.model.functions.values()):
+            known_names = {q.rsplit(".", 1)[-1] for q in (_known_api() or ())}  # (a reference method pulled up into a new base class keeps being that method)
+            if len(cands) == 1 and method not in known_names and not any(f.name == method and f.cls and f is not cands[0] for f in self.model.functions.values()):
                 return cands[0]
         return None
 
